@@ -247,6 +247,8 @@ class Verdicts:
         for key, (k, c) in sorted(seen_known.items()):
             print(f"KNOWN-FINDING: property={self.prop} {k.get('what_fails', '')} [{c} case(s) this run]")
         REPLAYS.mkdir(exist_ok=True)
+        for old in REPLAYS.glob(f"{self.prop}-*.json"):
+            old.unlink()
         shown = 0
         for key, v in sorted(new.items()):
             shown += 1
